@@ -355,7 +355,8 @@ impl Ctx {
                         None => GenericDatumWriter::builder(s).validate(validate).build(),
                     }
                 };
-                let mut sink = SharedSink::plain();
+                let mut sink = SharedSink::new(crate::exec_ocf::plan_from(o.get("sink_plan")));
+                sink.0.borrow_mut().capture_sites = o.get("sink_plan").and_then(|p| p.get("capture")).is_some();
                 let w = mk(validate || both)?;
                 let r = w.write_value_ref(&mut sink, &v);
                 let written = sink.bytes();
@@ -363,6 +364,10 @@ impl Ctx {
                     Ok(n) => json!({"bytes": hex(&written), "ret": n}),
                     Err(e) => json!({"write_err": err_json(&e), "leaked": hex(&written)}),
                 };
+                let (nw, nf) = sink.n_calls();
+                out["n_write"] = json!(nw);
+                out["n_flush"] = json!(nf);
+                out["loss_site"] = json!(sink.loss_site());
                 if both {
                     // same Value instance (same map iteration order) through the unvalidated writer
                     let mut sink2 = SharedSink::plain();
@@ -380,17 +385,30 @@ impl Ctx {
                 let plan = o.get("plan").ok_or("plan")?;
                 let schemata = self.schemata(o, "schemata")?;
                 let tbs = gu(o, "target_block_size");
-                let mut sink = SharedSink::plain();
-                let b = GenericDatumWriter::builder(s).maybe_target_block_size(tbs);
-                let w = match schemata {
-                    Some(sch) => b.schemata(sch)?.build()?,
-                    None => b.build()?,
+                let mut sink = SharedSink::new(crate::exec_ocf::plan_from(o.get("sink_plan")));
+                sink.0.borrow_mut().capture_sites = o.get("sink_plan").and_then(|p| p.get("capture")).is_some();
+                let legacy = gb(o, "legacy_fn", false);
+                let r = if legacy {
+                    // the free function documented to return the number of bytes written
+                    let rs = match &schemata {
+                        Some(sch) => ResolvedSchema::new_with_schemata(sch.clone())?,
+                        None => ResolvedSchema::new(s)?,
+                    };
+                    apache_avro::write_avro_datum_ref(s, rs.get_names(), &Plan(plan), &mut sink)
+                } else {
+                    let b = GenericDatumWriter::builder(s).maybe_target_block_size(tbs);
+                    let w = match schemata {
+                        Some(sch) => b.schemata(sch)?.build()?,
+                        None => b.build()?,
+                    };
+                    w.write_ser(&mut sink, &Plan(plan))
                 };
-                let r = w.write_ser(&mut sink, &Plan(plan));
                 let written = sink.bytes();
+                let (nw, nf) = sink.n_calls();
+                let site = sink.loss_site();
                 match r {
-                    Ok(n) => Ok(json!({"bytes": hex(&written), "ret": n})),
-                    Err(e) => Ok(json!({"write_err": err_json(&e), "leaked": hex(&written)})),
+                    Ok(n) => Ok(json!({"bytes": hex(&written), "ret": n, "n_write": nw, "n_flush": nf, "loss_site": site, "count_documented": true})),
+                    Err(e) => Ok(json!({"write_err": err_json(&e), "leaked": hex(&written), "n_write": nw, "n_flush": nf})),
                 }
             }
             "datum_read" => {
@@ -470,6 +488,7 @@ impl Ctx {
             // ------------------------------------------------------------ single object
             "so_history" => crate::exec_ocf::so_history(self, o),
             "damage_scan" => crate::scan::damage_scan(o),
+            "sink_scan" => crate::sinkscan::sink_scan(self, o),
             "so_read" => {
                 let s = self.schema(gs(o, "sid")?)?;
                 let data = unhex(gs(o, "bytes")?)?;
